@@ -95,7 +95,12 @@ class C17Hook:
                 # error alone (the flag is honoured) or by all its errors (an implementation that does not parse with
                 # that parser object) - never by anything else, in particular never by nothing at all
                 self.stats["first_error_mode_sources"] = self.stats.get("first_error_mode_sources", 0) + 1
-                exp1 = model_source(text, uri, opts, 0, mem["mediaType"] if mem is not None else "text/x.cucumber.gherkin+plain", True)[0]
+                exp1, _nd1, acc1 = model_source(text, uri, opts, 0, mem["mediaType"] if mem is not None else "text/x.cucumber.gherkin+plain", True)
+                if acc1:
+                    # "rejected" is what the parser says in its default mode; the flag only limits how many errors are reported
+                    run.violation("C17-model", ts.ti, oi, "$source[%d].accepted_in_stop_at_first_error_mode" % si,
+                                  "a source the parser rejects stays rejected when its stop_at_first_error flag is set", act[:2])
+                    exp1 = exp
                 if s["status"] in ("foreign", "abandoned"):
                     exp1 = exp1[:len(act)]
                 if rec.get("zip"):
